@@ -109,6 +109,8 @@ var (
 	fRule     = flag.String("rule", "", "non-triviality rule text for the evidence file")
 	fProbes   = flag.String("require-probes", "", "comma separated probes that must be > 0 (thorough tier)")
 	fExtra    = flag.String("extra", "", "extra flags passed to the worker binary")
+	fFirst    = flag.Uint64("first-seed", 0, "debugging: use this as the first run seed instead of deriving it from VERIF_SEED")
+	fOnlyKey  = flag.String("only", "", "debugging: only handle violations whose key contains this text")
 )
 
 func splitmix(x uint64) uint64 {
@@ -486,6 +488,9 @@ func main() {
 	}
 	pn, _ := strconv.Atoi(strings.TrimPrefix(*fProp, "C"))
 	base := splitmix(vseed*1000003+uint64(pn)) & ((1 << 40) - 1)
+	if *fFirst != 0 {
+		base = *fFirst
+	}
 	fmt.Printf("bsim: property=%s tier=%s VERIF_SEED=%d first-run-seed=%d max-runs=%d budget=%v\n", *fProp, *fTier, vseed, base, *fRuns, *fBudget)
 	var extra []string
 	if *fExtra != "" {
@@ -582,6 +587,9 @@ func main() {
 	replayDir := filepath.Join(*fVerif, "replays")
 	os.MkdirAll(replayDir, 0o755)
 	for _, k := range keys {
+		if *fOnlyKey != "" && !strings.Contains(k, *fOnlyKey) {
+			continue
+		}
 		r := byKey[k]
 		var v Violation
 		for _, vv := range r.Violations {
